@@ -104,3 +104,84 @@ func (e *Env) Reachable(protos ...*Def) map[string]bool {
 	}
 	return seen
 }
+
+// UseContexts returns, for every definition ("Ns.Name") reachable from the protocols of the
+// root package, the set of type constructors that wrap it on some path from a protocol step:
+// "stream", "optional", "union", "vector", "array", "mapval", "mapkey", "arg" (generic
+// argument). A definition used only as a step type / stream item / record field / alias target
+// has the empty set (or just "stream").
+func (e *Env) UseContexts() map[string]map[string]bool {
+	out := map[string]map[string]bool{}
+	type state struct {
+		key string
+		ctx string
+	}
+	seen := map[state]bool{}
+	var visitT func(t *Type, ctx map[string]bool)
+	join := func(m map[string]bool) string {
+		s := ""
+		for _, k := range []string{"arg", "array", "mapkey", "mapval", "optional", "stream", "union", "vector"} {
+			if m[k] {
+				s += k + ","
+			}
+		}
+		return s
+	}
+	with := func(m map[string]bool, k string) map[string]bool {
+		n := map[string]bool{}
+		for a := range m {
+			n[a] = true
+		}
+		n[k] = true
+		return n
+	}
+	visitT = func(t *Type, ctx map[string]bool) {
+		if t == nil {
+			return
+		}
+		switch t.Kind {
+		case KRef:
+			d := e.Lookup(t.Ns, t.Name)
+			if d == nil {
+				return
+			}
+			key := t.Ns + "." + t.Name
+			if out[key] == nil {
+				out[key] = map[string]bool{}
+			}
+			for k := range ctx {
+				out[key][k] = true
+			}
+			for _, a := range t.Args {
+				visitT(a, with(ctx, "arg"))
+			}
+			st := state{key, join(ctx)}
+			if seen[st] {
+				return
+			}
+			seen[st] = true
+			DefTypes(d, func(x *Type) { visitT(x, ctx) })
+		case KOptional:
+			visitT(t.Elem, with(ctx, "optional"))
+		case KVector:
+			visitT(t.Elem, with(ctx, "vector"))
+		case KArray:
+			visitT(t.Elem, with(ctx, "array"))
+		case KStream:
+			visitT(t.Elem, with(ctx, "stream"))
+		case KMap:
+			visitT(t.Key, with(ctx, "mapkey"))
+			visitT(t.Elem, with(ctx, "mapval"))
+		case KUnion:
+			for _, c := range t.Cases {
+				visitT(c, with(ctx, "union"))
+			}
+		}
+	}
+	for _, p := range e.Root.Protocols() {
+		for _, f := range p.Fields {
+			visitT(f.Type, map[string]bool{})
+		}
+	}
+	return out
+}
